@@ -53,7 +53,8 @@ Catalogue ==
                    [A |-> {"a"},  B |-> {"b"}, C |-> {"c","c2"}], E({"A","B","C"})),
     shortcut |-> Wf({"A","B","C"},      \* C reads a file of A directly and one of B, which is made from A's
                    [A |-> {"s1"}, B |-> {"a"}, C |-> {"a","b"}],
-                   [A |-> {"a"},  B |-> {"b"}, C |-> {"c"}], E({"A","B","C"})),
+                   [A |-> {"a"},  B |-> {"b"}, C |-> {"c"}],
+                   [A |-> {}, B |-> {"a"}, C |-> {}]),      \* B "protects" its input: that binds nobody else
     pair    |-> Wf({"A","B"},
                    [A |-> {"s1"}, B |-> {"a"}],
                    [A |-> {"a"},  B |-> {"b"}], E({"A","B"})) ]
